@@ -8,7 +8,8 @@ TECHNIQUE = "trace specification checked offline over a message-boundary log of 
 RULE = ("One case = a fresh regtest node with two attacker peers and three honest peers that relay by wtxid (inbound and outbound) plus one txid-relay "
         "control peer. T is a valid spend of a P2WPKH / P2WSH / P2TR coin, M has the same txid with a bad signature, a stripped witness, an ignored "
         "witness item padded beyond the standard size, or (control) a different valid witness; in every second case T is the unconfirmed parent of a "
-        "valid child so that the child is an orphan while only M is known. The step list {inv(M), tx(M) from one or two attackers, replay of M, "
+        "valid child so that the child is an orphan while only M is known, and in every other block of 16 cases T itself spends an UNCONFIRMED witness "
+        "output (of a transaction accepted into the mempool first). The step list {inv(M), tx(M) from one or two attackers, replay of M, "
         "inv(wtxid T) from two honest peers, inv(txid T) from the control peer, tx(child) from the attacker (who answers the parent request with M) or "
         "from an honest peer, inv(child), a block, waiting} is shuffled; tx(T) comes last in 3 of 4 cases, from a peer that was asked for it or "
         "unsolicited. After every inv mock time passes the request delays (and in half of the cases the 60 s expiry of an unanswered request). A case "
@@ -22,7 +23,8 @@ ASSUMPTIONS = [
 ]
 REQUIRED = ["sessions", "inv_T_after_M_processed", "getdata_T_after_M", "tx_T_delivered", "T_accepted", "orphan_cases", "orphan_child_accepted",
             "mall:badsig", "mall:stripped", "mall:pad_nonstd", "kind:p2wpkh", "kind:p2wsh", "kind:p2tr", "parent_request_answered_with_M",
-            "solicited_delivery", "unsolicited_delivery", "block_between", "inflight_wait"]
+            "solicited_delivery", "unsolicited_delivery", "block_between", "inflight_wait",
+            "unconf_cases", "unconf_stripped_orphan_M_before_child", "inv_T_txid_requested", "orphan_parent_requested"]
 LEVEL_TEXT = "held on every generated scenario: the genuine transaction was always requested after the malleated copy had been processed, and was in the mempool after delivery"
 LEVEL_NOTE = "trusted: boundary capture of getdata messages, the harness' mempool polling"
 
@@ -47,6 +49,12 @@ def check(rec, st):
     st.seen("kind:" + scen["kind"])
     if scen["orphan"]:
         st.seen("orphan_cases")
+    if scen.get("unconf"):
+        st.seen("unconf_cases")
+        if not scen.get("G0_in"):
+            st.seen("generator_mismatch")
+            st.seen("mismatch:G0 not accepted")
+    first_child = True
     pool = set()                 # wtxids currently in the mempool (polled)
     getdatas = []                # (t, mt, peer, set(hashes))
     answered = []                # (t, peer, hash) tx / notfound from a peer
@@ -109,6 +117,35 @@ def check(rec, st):
                     else:
                         st.violation("genuine-not-requested", "inv(wtxid T) from a wtxid-relay peer did not lead to a getdata for T although T is not in the mempool",
                                      {"scenario": _scen(scen), "order": order, "M_processed": m_processed_at is not None, "t": e["t"]}, rec["case"])
+            t_known = T["wtxid"] in pool or (alt and M["wtxid"] in pool)
+            if cls == "inv_T_txid" and not t_known:
+                # txid-relay control peer: the txid of the genuine transaction must not have become 'already known / rejected' through M
+                end = nxt[i]
+                later = [g for g in getdatas_after(ev, i, end) if T["txid"] in g[3]]
+                inflight = [1 for (t, mt, p, hs) in getdatas if T["txid"] in hs and e["mt"] - mt < 60
+                            and not any(a[1] == p and a[0] > t and a[2] in (T["wtxid"], T["txid"]) for a in answered)]
+                if later or inflight:
+                    st.seen("inv_T_txid_requested")
+                    if m_processed_at is not None:
+                        st.seen("inv_T_txid_requested_after_M")
+                else:
+                    st.violation("genuine-not-requested-by-txid", "inv(txid T) did not lead to a getdata for T although T is not in the mempool",
+                                 {"scenario": _scen(scen), "order": order, "M_processed": m_processed_at is not None, "t": e["t"]}, rec["case"])
+            if cls == "tx_child" and first_child:
+                first_child = False
+                if not t_known and child["wtxid"] not in pool:
+                    # the child is an orphan now: its missing parent has to be requested (by txid) unless a request is already in flight
+                    if m_processed_at is not None and scen.get("unconf") and scen["mall"] == "stripped":
+                        st.seen("unconf_stripped_orphan_M_before_child")
+                    end = nxt[i]
+                    later = [g for g in getdatas_after(ev, i, end) if T["txid"] in g[3] or T["wtxid"] in g[3]]
+                    inflight = [1 for (t, mt, p, hs) in getdatas if (T["txid"] in hs or T["wtxid"] in hs) and e["mt"] - mt < 60
+                                and not any(a[1] == p and a[0] > t and a[2] in (T["wtxid"], T["txid"]) for a in answered)]
+                    if later or inflight:
+                        st.seen("orphan_parent_requested")
+                    else:
+                        st.violation("orphan-parent-not-requested", "an orphan child of the genuine transaction arrived and the genuine parent was not requested",
+                                     {"scenario": _scen(scen), "order": order, "M_processed": m_processed_at is not None, "t": e["t"]}, rec["case"])
             if cls in ("tx_T", "tx_T_final"):
                 st.seen("tx_T_delivered")
                 asked = any(T["wtxid"] in hs and p == e["p"] for _, _, p, hs in getdatas) or any(T["txid"] in hs and p == e["p"] for _, _, p, hs in getdatas)
@@ -137,7 +174,7 @@ def check(rec, st):
         st.seen("generator_mismatch")
         st.seen("mismatch:%s/%s accepted" % (scen["kind"], scen["mall"]))
     if nontrivial:
-        st.nontrivial(scen["kind"], scen["mall"], scen["orphan"], tuple(order))
+        st.nontrivial(scen["kind"], scen["mall"], scen["orphan"], scen.get("unconf"), tuple(order))
     if rec["case"] % 40 < 2:
         st.sample({"case": rec["case"], "kind": scen["kind"], "mall": scen["mall"], "orphan": scen["orphan"], "order": order})
 
@@ -154,7 +191,7 @@ def getdatas_after(ev, i, end):
 
 
 def _scen(s):
-    return {"kind": s["kind"], "mall": s["mall"], "orphan": s["orphan"], "T": s["T"], "M": s["M"]}
+    return {"kind": s["kind"], "mall": s["mall"], "orphan": s["orphan"], "unconf": s.get("unconf"), "T": s["T"], "M": s["M"]}
 
 
 def finalize(st, tier):
